@@ -31,6 +31,7 @@ type Session struct {
 	mu       sync.Mutex
 	car      *sim.Carrier
 	handler  *grpctunnel.TunnelServiceHandler
+	inner    *grpctunnel.TunnelServiceHandler // nested mode: serves the scenario's RPCs over the inner tunnel
 	rts      *grpctunnel.ReverseTunnelServer
 	ch       grpctunnel.TunnelChannel
 	tunCtx   context.Context
@@ -360,7 +361,26 @@ func (s *Session) intercept(ctx context.Context) context.Context {
 	return ctx
 }
 
+// openInner starts the inner (forward) tunnel over the outer channel.
+func (s *Session) openInner(outer grpctunnel.TunnelChannel) (grpctunnel.TunnelChannel, error) {
+	ctx := context.Background()
+	if s.Cfg.NestedMD != nil {
+		ctx = metadata.NewOutgoingContext(ctx, toMD(s.Cfg.NestedMD))
+	}
+	ctx = context.WithValue(ctx, ctxValKey{}, "iv-client")
+	ctx, cancel := context.WithCancel(ctx)
+	go func() {
+		<-s.quit
+		cancel()
+	}()
+	return grpctunnel.NewChannel(tunnelpb.NewTunnelServiceClient(outer)).Start(ctx)
+}
+
 func (s *Session) openingMD() metadata.MD {
+	if s.Cfg.Nested {
+		// what opened the tunnel that carries the scenario's RPCs: the inner one
+		return toMD(s.Cfg.NestedMD)
+	}
 	md := toMD(s.Cfg.TunnelMD)
 	if s.Cfg.Icept && s.Cfg.RawCli == "" && s.Cfg.RawSrv == "" {
 		if md == nil {
@@ -467,6 +487,20 @@ func (s *Session) open() {
 	hopts := grpctunnel.TunnelServiceHandlerOptions{
 		OnReverseTunnelOpen: func(ch grpctunnel.TunnelChannel) {
 			s.emit("reg", tr.E{"what": "open", "ch": grpctunnel.VerifChannelID(ch)})
+			if s.Cfg.Nested {
+				// the inner tunnel is started over the reverse (outer) channel; Start blocks until the
+				// settings exchange is done, so not on the handler's goroutine
+				go func() {
+					in, err := s.openInner(ch)
+					if err != nil {
+						s.emit("tun", errFields(tr.E{"what": "startfail"}, err))
+						return
+					}
+					s.setChannel(in)
+					s.emit("tun", tr.E{"what": "started", "ch": grpctunnel.VerifChannelID(in)})
+				}()
+				return
+			}
 			s.setChannel(ch)
 		},
 		OnReverseTunnelClose: func(ch grpctunnel.TunnelChannel) {
@@ -491,7 +525,13 @@ func (s *Session) open() {
 		"tmd": wire.MD(s.openingMD())})
 	switch cfg.Dir {
 	case "fwd":
-		s.handler.RegisterService(&serviceDesc, &service{s})
+		if cfg.Nested {
+			s.inner = grpctunnel.NewTunnelServiceHandler(grpctunnel.TunnelServiceHandlerOptions{})
+			s.inner.RegisterService(&serviceDesc, &service{s})
+			tunnelpb.RegisterTunnelServiceServer(s.handler, s.inner.Service())
+		} else {
+			s.handler.RegisterService(&serviceDesc, &service{s})
+		}
 		if cfg.RawCli != "" {
 			s.openRawNetClient()
 			return
@@ -502,6 +542,13 @@ func (s *Session) open() {
 				s.emit("tun", errFields(tr.E{"what": "startfail"}, err))
 				return
 			}
+			if cfg.Nested {
+				ch, err = s.openInner(ch)
+				if err != nil {
+					s.emit("tun", errFields(tr.E{"what": "startfail"}, err))
+					return
+				}
+			}
 			s.setChannel(ch)
 			s.emit("tun", tr.E{"what": "started", "ch": grpctunnel.VerifChannelID(ch)})
 		}()
@@ -511,7 +558,13 @@ func (s *Session) open() {
 			return
 		}
 		s.rts = grpctunnel.NewReverseTunnelServer(stub{s}, copts...)
-		s.rts.RegisterService(&serviceDesc, &service{s})
+		if cfg.Nested {
+			s.inner = grpctunnel.NewTunnelServiceHandler(grpctunnel.TunnelServiceHandlerOptions{})
+			s.inner.RegisterService(&serviceDesc, &service{s})
+			tunnelpb.RegisterTunnelServiceServer(s.rts, s.inner.Service())
+		} else {
+			s.rts.RegisterService(&serviceDesc, &service{s})
+		}
 		go func() {
 			started, err := s.rts.Serve(s.tunCtx)
 			s.emit("tun", errFields(tr.E{"what": "serveret", "started": started}, err))
